@@ -31,7 +31,16 @@ type PS struct {
 	// the scheduler instead of blocking on the real sync.RWMutex, which
 	// synctest does not treat as durable blocking.
 	LockModel bool
-	readers   map[string]int
+	// LockProbe (with LockModel) asks the wrapped store's REAL lock whether an
+	// exclusive (write) or shared acquisition for the part would block right
+	// now. When set, it alone decides whether a caller waits: the self-kept
+	// reader/writer count below always excludes, so it would hide a defect that
+	// loses the real lock's exclusion. The count is still kept; LockDisagree
+	// counts the decisions where it would have made the caller wait although the
+	// real lock admitted it.
+	LockProbe    func(id partstore.PartId, write bool) bool
+	LockDisagree int
+	readers      map[string]int
 	writers   map[string]bool
 	LockWaits int
 	alias     map[string]int
@@ -71,6 +80,13 @@ func (p *PS) acquire(id partstore.PartId, write bool) {
 			p.readers, p.writers = map[string]int{}, map[string]bool{}
 		}
 		free := !p.writers[k] && (!write || p.readers[k] == 0)
+		if p.LockProbe != nil {
+			real := !p.LockProbe(id, write)
+			if real && !free {
+				p.LockDisagree++
+			}
+			free = real
+		}
 		if free || s.Closed() || s.IsRoot() {
 			if write {
 				p.writers[k] = true
